@@ -81,8 +81,7 @@ let kind_of c =
   | ":ounexpected" -> FObjectUnexpected (n_tok a)
   | t -> raise (Bad ("kind " ^ t))
 let pairs c = counted c (fun c -> let a = n_tok (next c) in let b = n_tok (next c) in (a, b))
-let obs_of os =
-  let c = { rest = os } in
+let obs_cur c =
   let fail = (if peek c = Some "~" then (ignore (next c); None) else
     let i = n_tok (next c) in let k = kind_of c in let u = pairs c in let f = pairs c in
     Some (i, { f_kind = k; f_unf = u; f_ful = f })) in
@@ -90,17 +89,59 @@ let obs_of os =
   let outs = counted c (fun c -> bytes_tok (next c)) in
   let left = counted c (fun c -> bool_tok (next c)) in
   let post = counted c (fun c -> let k = kind_of c in let u = pairs c in let f = pairs c in { f_kind = k; f_unf = u; f_ful = f }) in
-  if not (at_end c) then raise (Bad "trailing tokens") else { o_fail = fail; o_rets = rets; o_outs = outs; o_left = left; o_post = post }
+  { o_fail = fail; o_rets = rets; o_outs = outs; o_left = left; o_post = post }
+let obs_of os =
+  let c = { rest = os } in
+  let o = obs_cur c in
+  if not (at_end c) then raise (Bad "trailing tokens") else o
 let scenario ts =
   let o = ops { rest = ts } in
   if not (valid o) then raise (Bad "value out of range of its type / output buffer size") else o
-let run_line ts = pobs ((if Sys.getenv_opt "C08_OLD" <> None then runw_old else runw) (scenario ts))
+(* a run of several tests with the MockSupportPlugin installed: ":T step*" per test; step = mock operation | ":ok" (a check of the
+   test's own that passes) | ":bad" (one that fails).  Observation: ":run n (own total obs)*" *)
+let is_run ts = (match ts with ":T" :: _ -> true | _ -> false)
+let rec steps c =
+  if at_end c || peek c = Some ":T" then [] else
+  let s = (match peek c with
+    | Some ":ok" -> ignore (next c); TCheck true
+    | Some ":bad" -> ignore (next c); TCheck false
+    | _ -> TOp (sop c)) in
+  s :: steps c
+let rec tests c =
+  if at_end c then [] else begin
+    (if next c <> ":T" then raise (Bad "expected :T"));
+    let t = steps c in t :: tests c
+  end
+let run_scenario ts =
+  let r = tests { rest = ts } in
+  if not (valid_run r) then raise (Bad "invalid run (value out of range / :post inside a test)") else r
+let ptobs o = String.concat " " [pbool o.to_own; pn o.to_total; pobs o.to_obs]
+let pruns l = String.concat " " (":run" :: Printf.sprintf "%x" (List.length l) :: List.map ptobs l)
+let runs_of os =
+  let c = { rest = os } in
+  (if next c <> ":run" then raise (Bad "expected :run"));
+  let l = counted c (fun c -> let own = bool_tok (next c) in let total = n_tok (next c) in let o = obs_cur c in
+                              { to_obs = o; to_own = own; to_total = total }) in
+  if not (at_end c) then raise (Bad "trailing tokens") else l
+let run_line ts =
+  if is_run ts then
+    pruns (match Sys.getenv_opt "C08_PLUGIN" with
+           | Some "runwide" -> runs_gen plugin_runwide (run_scenario ts)
+           | Some "always" -> runs_gen plugin_always (run_scenario ts)
+           | Some "noclear" -> runs_gen plugin_noclear (run_scenario ts)
+           | _ -> runs (run_scenario ts))
+  else pobs ((if Sys.getenv_opt "C08_OLD" <> None then runw_old else runw) (scenario ts))
 (* C08_JUDGED=1: answer "is the scenario judged by the spec" instead (coverage statistics of checks/C08.py) *)
+let judged_ops o =
+  (match parsew o with
+   | Some k -> judgedw k
+   | None -> (match post_to_check o with
+              | Some ops' -> (match parsew ops' with Some k -> judgedw k | None -> false)
+              | None -> false))
 let spec_line ts os =
-  if Sys.getenv_opt "C08_JUDGED" <> None then
-    (match parsew (scenario ts) with
-     | Some k -> judgedw k
-     | None -> (match post_to_check (scenario ts) with
-                | Some ops' -> (match parsew ops' with Some k -> judgedw k | None -> false)
-                | None -> false))
+  if is_run ts then
+    (if Sys.getenv_opt "C08_JUDGED" <> None then
+       List.for_all (fun t -> own_fails t || judged_ops (ops_before t @ [(N0, OPost)])) (run_scenario ts)
+     else spec_run (run_scenario ts) (runs_of os))
+  else if Sys.getenv_opt "C08_JUDGED" <> None then judged_ops (scenario ts)
   else specw (scenario ts) (obs_of os)
